@@ -94,6 +94,14 @@ func c01ReplayCase(in c01Replay) (bool, string) {
 		return false, fmt.Sprintf("program produces no output with inert values: %v %v", ri.Kind, ri.Err)
 	}
 	sigI := tmplx.SigOf(tmplx.Tokenize(ri.Out, false), true)
+	if in.Slot < 0 && in.Clause == "comment-in-output" {
+		for _, t := range tmplx.Tokenize(ri.Out, false).Tokens {
+			if t.Type == htmltok.Comment {
+				return true, fmt.Sprintf("program %q\n inert output %q contains a comment token (sig %s)", in.Program, ri.Out, sigI)
+			}
+		}
+		return false, fmt.Sprintf("program %q\n inert output %q has no comment token", in.Program, ri.Out)
+	}
 	if in.Slot < 0 {
 		auth, _ := tmplx.Author(in.Program, &d)
 		sigA := tmplx.SigOf(tmplx.Tokenize(auth, false), false)
@@ -121,7 +129,7 @@ func c01Families() []c01Family {
 	fRaw := tmplx.T("<script>", "<style>", "<textarea>", "<title>", "<TITLE>", "</script>", "</SCRIPT\f>", "</script\r>", "</textarea ", "</titlex", "</", "<", "x", "<!--", "-->", ">", S)
 	fCmt := append(tmplx.T("<!--", "-->", "--!>", "<!-->", "<!--->", "-", "!", ">", "<", "x", "<a title=\"", "\"", S),
 		tmplx.Frag{Text: `{{template "h" $}}`}, tmplx.Frag{Text: `{{template "bh" $}}`})
-	fDecl := tmplx.T("<!DOCTYPE html>", "<!doctype", "<![CDATA[", "]]>", "<?", "?>", "</ ", "<1", "&lt", "&#", "x", ">", "<!", S)
+	fDecl := tmplx.T("<!DOCTYPE html>", "<!doctype", "<![CDATA[", "]]>", "<?", "?>", "</ ", "<1", "&lt", "&#", "x", ">", "<!", "<?xml a=\"b > c\"?>", S)
 	core10 := tmplx.T("<a ", "href=\"", "title='", "\"", "'", ">", "x", "/x?", S, "</a>")
 	fCtl := append(append([]tmplx.Frag{}, core10...), tmplx.If, tmplx.Else, tmplx.End, tmplx.Range, tmplx.With,
 		tmplx.Frag{Text: `{{template "h" $}}`}, tmplx.Frag{Text: `{{template "q" $}}`}, tmplx.Frag{Text: `{{template "open" $}}`}, tmplx.Frag{Text: `{{template "ot" $}}`})
@@ -336,6 +344,14 @@ func c01Check(r *core.Run, st *c01stats, sigs *sync.Map, nsigs *int64, fam c01Fa
 			r.Witness("author-structure", discr, n.Raw, fmt.Sprintf("program %s: output %s has structure %s, the author's markup %s has %s", core.Q(n.Raw), core.Q(outI), sigI, core.Q(auth), sigA), mk(-1, "", "", "author-structure"))
 		}
 	}
+	// clause 2b: whatever the author wrote, the output has no comment token (the engine elides comments; a "<" that
+	// would open a bogus comment is rewritten)
+	for _, t := range tokI.Tokens {
+		if t.Type == htmltok.Comment {
+			r.Witness("comment-in-output", "", n.Raw, fmt.Sprintf("program %s: output %s contains a comment token (structure %s)", core.Q(n.Raw), core.Q(outI), sigI), mk(-1, "", "", "comment-in-output"))
+			break
+		}
+	}
 	c01XNet(st, outI)
 	// clause 1: data independence of the structure
 	for k := 0; k < n.Slots; k++ {
@@ -481,7 +497,7 @@ func c01ProductFamilies(thorough bool) []c01Product {
 		{"<a", "<A", "<img", "<x-y"}, ws1, names, ws, {"=", ""}, ws, vals, {"", " ", "/", "\v"}, {">", "/>", ""},
 	}}
 	// end-tag recognition of raw-text / RCDATA elements: what follows the name, case, stray prefixes
-	after := []string{">", " >", "\t>", "\n>", "\f>", "\r>", "/>", "\v>", "\xa0>", "x>", "\x00>", "", " ", "\r", "/", " x=\"y\">"}
+	after := []string{">", " >", "\t>", "\n>", "\f>", "\r>", "/>", ".>", "\v>", "\xa0>", "x>", "\x00>", "", " ", "\r", "/", " x=\"y\">", ",>", "-x>", ":>", "_>", "1>"}
 	var raws []c01Product
 	rawEls := []string{"script", "style", "textarea", "title", "xmp", "iframe", "noscript"}
 	if thorough {
@@ -491,7 +507,7 @@ func c01ProductFamilies(thorough bool) []c01Product {
 		up := strings.ToUpper(el)
 		after := after
 		if ei >= 4 && !thorough {
-			after = after[:7] // the further raw-text elements share the end-tag code: fewer spellings in the quick tier
+			after = after[:8] // the further raw-text elements share the end-tag code: fewer spellings in the quick tier
 		}
 		mixed := strings.ToUpper(el[:1]) + el[1:]
 		raws = append(raws, c01Product{"rawend-" + el, [][]string{
